@@ -89,9 +89,9 @@ type P4d struct {
 	streams  []p4.P4Runtime_StreamChannelServer
 
 	// fault plan: fail the Write RPC whose ordinal (counted from Arm) equals FailAt
-	writeN  int
-	FailAt  map[int]string // ordinal -> "UNAVAILABLE" | "INVALID_ARGUMENT" | "RESOURCE_EXHAUSTED" | "NOT_FOUND"
-	Delay   func() time.Duration
+	writeN   int
+	FailAt   map[int]string // ordinal -> "UNAVAILABLE" | "INVALID_ARGUMENT" | "RESOURCE_EXHAUSTED" | "NOT_FOUND"
+	Delay    func() time.Duration
 	inflight atomic.Int64
 	maxInfl  atomic.Int64
 	conns    atomic.Int64
